@@ -38,8 +38,9 @@ Write == /\ phase = "write" /\ \E pos \in {p \in Positions : p \in {"target", "t
               wname' = n /\ wpos' = pos
          /\ phase' = "read" /\ UNCHANGED <<rname, rpos>>
 \* which read position looks up what a write position established
+\* "..._after_rename": the table that carries the written column is renamed between the write and the read
 Pairs == {<<"target", "next_stmt_from">>, <<"target_column", "next_stmt_colref">>, <<"collist", "next_stmt_colref">>,
-          <<"alias_def", "qualifier">>, <<"from", "from">>}
+          <<"target_column", "next_stmt_colref_after_rename">>, <<"alias_def", "qualifier">>, <<"from", "from">>}
 Read == /\ phase = "read" /\ \E pos \in Positions : \E n \in NamesAt(pos) :
              <<wpos, pos>> \in Pairs /\ Len(n) = Len(wname) /\ rname' = n /\ rpos' = pos
         /\ phase' = "done" /\ UNCHANGED <<wname, wpos>>
